@@ -5,6 +5,7 @@ import (
 	"fmt"
 	"math/rand"
 	"os"
+	"runtime"
 	"sync"
 	"sync/atomic"
 	"time"
@@ -265,6 +266,9 @@ func genC19(out, tier string, rng *rand.Rand) {
 		dur = 12 * time.Second
 	}
 	notes, ops := lockStress(dur, rng.Int63())
+	churnNotes, churnOps := lockChurn(dur, rng.Int63())
+	notes = append(notes, churnNotes...)
+	extra["churn_lock_calls"] = churnOps
 	patience := 6 * time.Second
 	if tier == "thorough" {
 		patience = 40 * time.Second
@@ -356,6 +360,71 @@ func lockStress(d time.Duration, seed int64) ([]string, int64) {
 					}
 					if rng.Intn(2) == 0 {
 						time.Sleep(time.Duration(rng.Intn(50)) * time.Microsecond)
+					}
+					atomic.AddInt32(&holders[k], -1)
+					func() {
+						defer func() {
+							if p := recover(); p != nil {
+								note("Unlock of the held key %q panicked: %v", key, p)
+							}
+						}()
+						m.Unlock(key)
+					}()
+				}
+				cancel()
+			}
+		}(g)
+	}
+	wg.Wait()
+	if n := m.VerifLen(); n != 0 {
+		note("%d entries left in the map after every caller has finished", n)
+	}
+	return notes, atomic.LoadInt64(&calls)
+}
+
+// lockChurn: many goroutines over MANY keys with very short sections, so that keys are mostly absent
+// when they are asked for: entries are created and evicted all the time, and callers race for keys
+// that are just being created or evicted while other keys come and go (lockStress, with two hot keys,
+// hardly ever meets an absent key). Judged like lockStress.
+func lockChurn(d time.Duration, seed int64) ([]string, int64) {
+	const nkeys = 6
+	m := gcsutil.NewTransientLockMap()
+	var holders [nkeys]int32
+	var calls int64
+	var mu sync.Mutex
+	var notes []string
+	note := func(f string, a ...interface{}) {
+		mu.Lock()
+		if len(notes) < 5 {
+			notes = append(notes, "churn: "+fmt.Sprintf(f, a...))
+		}
+		mu.Unlock()
+	}
+	stop := time.Now().Add(d)
+	var wg sync.WaitGroup
+	for g := 0; g < 8; g++ {
+		wg.Add(1)
+		go func(g int) {
+			defer wg.Done()
+			rng := rand.New(rand.NewSource(seed + int64(g)))
+			for n := 0; ; n++ {
+				if n%64 == 0 && !time.Now().Before(stop) {
+					return
+				}
+				k := rng.Intn(nkeys)
+				key := fmt.Sprintf("c%d", k)
+				ctx, cancel := context.WithTimeout(context.Background(), 20*time.Millisecond)
+				atomic.AddInt64(&calls, 1)
+				ok := m.Lock(ctx, key)
+				if !ok && ctx.Err() == nil {
+					note("Lock(%q) returned false although its context had not ended", key)
+				}
+				if ok {
+					if n := atomic.AddInt32(&holders[k], 1); n != 1 {
+						note("%d callers hold key %q at the same time", n, key)
+					}
+					if rng.Intn(4) == 0 {
+						runtime.Gosched()
 					}
 					atomic.AddInt32(&holders[k], -1)
 					func() {
